@@ -16,6 +16,8 @@ Model. A project is a list of files; file i has import edges (target j, alias or
   * `1.m()` for a method m of a directly imported G          -> reachable iff m is public
   * anything of a file H that F does not import directly (only reachable through G's own imports):
     functions -> not reachable (G does not mark them public; they are H's definitions)
+  * a function name defined twice in one file (public then private, private then public): the last definition
+    is the definition (labels private-after-public / public-after-private)
 Every function returns a distinct constant, so "reachable" also means "evaluates to that constant".
 """
 import random
@@ -48,7 +50,7 @@ def shape_edges(shape):
     raise ValueError(shape)
 
 
-def gen_project(rng, shape=None, alias_mode=None):
+def gen_project(rng, shape=None, alias_mode=None, redefs=False):
     shape = shape or rng.choice(SHAPES)
     n, edges = shape_edges(shape)
     alias_mode = alias_mode or rng.choice(("as", "plain", "mixed", "mixed", "both"))
@@ -70,6 +72,15 @@ def gen_project(rng, shape=None, alias_mode=None):
                 defs.append({"kind": kind, "name": "%s_%s%d_%s" % (L, "f" if kind == "fun" else "m", q,
                                                                     "pub" if pub else "priv"),
                              "public": pub, "value": k()})
+        # a function name defined twice in the file: the last definition is the one that exists afterwards
+        # (`garden check` only warns "already defined in this file"), so its visibility and value decide
+        for q, (first_pub, last_pub) in enumerate(((True, False), (False, True))):
+            if redefs or rng.random() < 0.5:
+                defs.append({"kind": "fun", "name": "%s_r%d_%s" % (L, q, "pubpriv" if first_pub else "privpub"),
+                             "public": last_pub, "value": k(),
+                             "label": "private-after-public" if first_pub else "public-after-private",
+                             "earlier": {"public": first_pub, "value": k(), "gap": rng.random() < 0.5}})
+        rng.shuffle(defs)
         ballast = {"enum_public": rng.random() < 0.5, "struct_public": rng.random() < 0.5}
         imps = []
         for (s, d) in edges:
@@ -91,6 +102,10 @@ def gen_project(rng, shape=None, alias_mode=None):
     return {"shape": shape, "alias_mode": alias_mode, "files": files}
 
 
+def vis_of(d):
+    return d.get("label") or ("public" if d["public"] else "private")
+
+
 def accesses(project, fi):
     """Accesses to write into file `fi`: list of dicts
     {"expr", "expect": True|False|None (None = not judged), "value", "what": label for signatures}"""
@@ -100,7 +115,7 @@ def accesses(project, fi):
     for d in F["defs"]:
         expr = "%s()" % d["name"] if d["kind"] == "fun" else "1.%s()" % d["name"]
         out.append({"expr": expr, "expect": True, "value": d["value"],
-                    "what": "own:%s:%s" % (d["kind"], "public" if d["public"] else "private")})
+                    "what": "own:%s:%s" % (d["kind"], vis_of(d))})
     direct_plain = {imp["to"] for imp in F["imports"] if imp["alias"] is None}
     direct = {imp["to"] for imp in F["imports"]}
     seen_method_targets = set()
@@ -108,7 +123,7 @@ def accesses(project, fi):
         G = files[imp["to"]]
         gi = imp["to"]
         for d in G["defs"]:
-            vis = "public" if d["public"] else "private"
+            vis = vis_of(d)
             if d["kind"] == "fun":
                 if imp["alias"]:
                     # a private function reached through an alias of the file's own name is "in the current
@@ -147,7 +162,7 @@ def accesses(project, fi):
             for d in H["defs"]:
                 if d["kind"] != "fun":
                     continue
-                vis = "public" if d["public"] else "private"
+                vis = vis_of(d)
                 if imp["alias"]:
                     out.append({"expr": "%s::%s()" % (imp["alias"], d["name"]), "expect": False,
                                 "value": d["value"], "what": "transitive-qualified:fun:%s" % vis})
@@ -174,7 +189,14 @@ def render_defs(F, fi):
                                                                L.upper(), L.upper()))
     lines.append("%sstruct %s_Rec { x: Int }" % ("public " if b["struct_public"] else "", L.upper()))
     for d in F["defs"]:
+        e = d.get("earlier")
+        if e and e["gap"]:
+            lines.insert(2, "%sfun %s(): Int { %d }" % ("public " if e["public"] else "", d["name"], e["value"]))
+    for d in F["defs"]:
         pub = "public " if d["public"] else ""
+        e = d.get("earlier")
+        if e and not e["gap"]:
+            lines.append("%sfun %s(): Int { %d }" % ("public " if e["public"] else "", d["name"], e["value"]))
         if d["kind"] == "fun":
             lines.append("%sfun %s(): Int { %d }" % (pub, d["name"], d["value"]))
         else:
